@@ -89,7 +89,12 @@ D_VerifySucceeds(in) ==
 (*                                                                         *)
 (* call = [ref : "tag"|"digest"|"fullTag"|"fullDigest"|"mismatch",         *)
 (*         meta : "empty"|"disjoint"|"colliding"|"reserved"]               *)
-(* art  = [annotated : BOOLEAN, store : "mem" | "oci" | "ociReopen"]       *)
+(* art  = [annotated : BOOLEAN, store : "mem" | "oci" | "ociReopen",       *)
+(*         signerAnn : "none" | "unrelated" | "clashing"]                  *)
+(*        signerAnn: manifest annotations the signer supplies of its own   *)
+(*        accord (an envelope-generating plugin may): "clashing" ones use  *)
+(*        the thumbprint and creation-time keys - the generated values     *)
+(*        are what the manifest must give all the same                     *)
 (*        annotated: the artifact is tagged with an annotation; an OCI     *)
 (*        layout hands out that annotation only for tag references (a      *)
 (*        digest reference resolves to a plain descriptor)                 *)
@@ -106,7 +111,7 @@ SStep(s) ==
          ELSE IF s.call.meta = "colliding" /\ ResolvedAnnotated(s.art, s.call.ref) THEN SRefuse(s, "collides-with-annotation")
          ELSE [s EXCEPT !.toSign = "resolved+meta", !.pc = "sign"]
     [] s.pc = "sign"    -> [s EXCEPT !.signed = s.toSign, !.pc = "annotate"]
-    [] s.pc = "annotate" -> [s EXCEPT !.ann = "thumbprints+time", !.pc = "push"]
+    [] s.pc = "annotate" -> [s EXCEPT !.ann = "thumbprints+time", !.pc = "push"]   \* whatever s.art.signerAnn: generated values win
     [] s.pc = "push"    -> [s EXCEPT !.subject = "resolved", !.refs = @ + 1, !.ok = TRUE, !.pc = "done"]
 RECURSIVE SRun(_)
 SRun(s) == IF s.pc = "done" THEN s ELSE SRun(SStep(s))
